@@ -358,6 +358,8 @@ def val(x):
     return (type(x).__name__, tuple(val(v) for v in x))
   if hasattr(x, 'dtype'):
     a = np.asarray(x)
+    if a.dtype.kind == 'f':
+      a = a + a.dtype.type(0)  # -0.0 and +0.0 are the same value (sign of zero may differ between execution paths)
     return ('arr', str(a.dtype), a.shape, a.tobytes())
   return ('v', repr(x))
 
